@@ -70,6 +70,17 @@ def build_pool(workdir):
     P["init_state"] = np.array([0.6, 0, 0.8j, 0], dtype=complex)
     P["amps_list"] = [0.5, 0.5j, -0.5, 0.5]
     P["matrix"] = [[1, 0, 0, 0], [0, 0, 1j, 0], [0, -1j, 0, 0], [0, 0, 0, -1]]
+    # a parameterless custom definition whose exact entries are NOT in sympy's simplified form (evaluating a power of the gate must not tidy up the definition)
+    ex = sympy
+    Mx = ex.Matrix([[ex.exp(ex.I * ex.pi / 4) / ex.sqrt(2), ex.exp(ex.I * ex.pi / 4) / ex.sqrt(2)], [ex.exp(-ex.I * ex.pi / 4) / ex.sqrt(2), -ex.exp(-ex.I * ex.pi / 4) / ex.sqrt(2)]])
+    xdef = C.CustomGateDefinition("exactdef", Mx, ())
+    P["circ_exact"] = C.Circuit([xdef()(0), xdef().power(0.5)(1), xdef().controlled(1)(1, 0)], n_qubits=2)
+    P["gate_exact_root"] = xdef().power(0.5)
+    P["bit_array"] = np.array([[0, 1, 1], [1, 1, 0], [1, 0, 1], [1, 1, 1]])                      # an integer array of shots, as handed to the vectorised parity routines
+    P["bit_tuples"] = [(0, 1, 1), (1, 1, 0), (1, 0, 1), (1, 1, 1)]
+    P["circ_empty"] = C.Circuit([], n_qubits=2)
+    P["init_float_state"] = np.array([0.6, 0.0, 0.8, 0.0]) * (1 + 3e-9)                              # float array, norm off by 3e-9 (rounding of an earlier computation)
+    P["init_complex_state"] = np.array([0.6, 0, 0.8j, 0], dtype=complex) * (1 - 2e-9)
     P["_dir"] = workdir
     return P
 
@@ -140,6 +151,17 @@ def menu():
         "sim.sample": lambda P: SymbolicSimulator(seed=1).run_and_measure(P["circ_num"], 3),
         "sim.exact_dist": lambda P: SymbolicSimulator().get_measurement_outcome_distribution(P["circ_num"], None),
         "sim.exact_exp": lambda P: SymbolicSimulator().get_exact_expectation_values(P["circ_num"], P["herm"]),
+        "exact.root.matrix": lambda P: P["gate_exact_root"].matrix,
+        "exact.to_unitary": lambda P: P["circ_exact"].to_unitary(),
+        "exact.to_dict": lambda P: C.to_dict(P["circ_exact"]),
+        "exact.sim": lambda P: SymbolicSimulator().get_wavefunction(P["circ_exact"]),
+        "sim.empty_float_init": lambda P: SymbolicSimulator().get_wavefunction(P["circ_empty"], P["init_float_state"]),
+        "sim.empty_complex_init": lambda P: SymbolicSimulator().get_wavefunction(P["circ_empty"], P["init_complex_state"]),
+        "sim.float_init": lambda P: SymbolicSimulator().get_wavefunction(P["circ_num"], P["init_float_state"]),
+        "parity.vector2": lambda P: M.check_parity_of_vector(P["bit_array"], [0, 2]),
+        "parity.vector3": lambda P: M.check_parity_of_vector(P["bit_array"], (2, 1, 0)),
+        "parity.vector1": lambda P: M.check_parity_of_vector(P["bit_array"], [1]),
+        "parities.from_array": lambda P: M.get_parities_from_measurements(P["bit_tuples"], P["ising"]),
         "layer": lambda P: C.create_layer_of_gates(3, C.RX, P["rows"]),
         "apply_to_qubits": lambda P: C.apply_gate_to_qubits(P["circ_num"], P["qubits"], C.X),
         "ancilla": lambda P: C.add_ancilla_register(P["circ_num"], 2),
